@@ -262,14 +262,14 @@ def check(ctx):
         for mid, x in token_mutations(src):
             for bn, st in (allprof[:1] if quick else allprof[:7]):
                 add("token-mutation", "%s:%s" % (name, mid), x, lang, bn, st)
-    # (iv) byte strings
-    alpha = A44 if quick else list(range(256))
+    # (iv) byte strings: all 256^2 pairs for C (thorough), pairs over the 44-byte alphabet elsewhere
     for lang in skel.LANGS:
-        for a in alpha:
+        for a in range(256):
             add("bytes", "b1:%02x" % a, bytes([a]), lang, "defaults", {})
             add("bytes", "ab1:%02x" % a, b"int a;\n" + bytes([a]), lang, "defaults", {})
         if quick and lang not in ("C", "CPP", "PAWN", "D"):
             continue
+        alpha = list(range(256)) if (not quick and lang == "C") else A44
         for a in alpha:
             for b in alpha:
                 add("bytes", "b2:%02x%02x" % (a, b), bytes([a, b]), lang, "defaults", {})
@@ -311,8 +311,8 @@ def check(ctx):
             if quick and i % 2:
                 continue
             single_inputs.append(("tail%d" % i, lang, b"int x;\n" + t))
-    for cid, lang, x in single_inputs:
-        fl = "hooks" if quick else "asan"
+    for n_, (cid, lang, x) in enumerate(single_inputs):
+        fl = "hooks" if (quick or n_ % 3) else "asan"      # thorough: every third input under the sanitizers, the rest on the plain build
         groups.append(bee.Group("C06", cid, x, lang, "defaults", {}, judge, all_family, None, 1, flavour=fl, quiet=False,
                                 env=env if fl == "asan" else None, deadline=dl, allow_lexer=True, meta={"universe": "singles"}))
     if quick:
@@ -339,8 +339,8 @@ def check(ctx):
         "traces_validated_against_impl": agg["runs"] + agg2["runs"],
         "rule": "every element of the universes listed in universe_sizes (byte prefixes, line suffixes, token mutations, byte strings, "
                 "unterminated tails, corpus line prefixes) x languages x profiles on the ASan+UBSan build, plus every single deviation of every "
-                "option the run reads on %d construct-ending inputs (%s build); a case is non-trivial when uncrustify REFUSES it (non-zero "
-                "status: an error path was executed); distinct cases by construction" % (len(single_inputs), "plain + ASan slice" if quick else "ASan"),
+                "option the run reads on %d construct-ending inputs (%s); a case is non-trivial when uncrustify REFUSES it (non-zero "
+                "status: an error path was executed); distinct cases by construction" % (len(single_inputs), "plain build + a 1/16 slice under ASan" if quick else "every third input under ASan, the others on the plain build"),
         "samples": [{"id": c.cid, "lang": c.lang, "input": c.src[-60:].decode("latin-1")} for c in cases[:: max(1, len(cases) // 6)]][:8],
         "universe_sizes": counts, "single_deviation_groups": agg["groups"], "single_deviation_runs": agg["runs"],
         "single_deviations_pruned_by_read_set": agg["pruned"], "distinct_outcomes": outcomes,
